@@ -533,6 +533,117 @@ class MacroName(Part):
         return None
 
 
+class Corners(Part):
+    """Hand-written shapes around macro definitions, with the expected text
+    written down: macro names that are not identifiers, macros defined
+    inside the body of the used macro (they are part of it: their slots are
+    filled like any other slot of the body, in every repetition)."""
+    name = "corners"
+    examples = {"quick": 200, "thorough": 3000}
+
+    def strategy(self, tier):
+        return st.fixed_dictionaries({
+            "kind": st.sampled_from(["name", "name", "nested", "nested_rep",
+                                     "nested_same_slot", "nested_unfilled"]),
+            "name": st.sampled_from(["m", "a-b", "a.b", "a_b", "x.y-z", "M1",
+                                     "a:b", "é"]),
+            "via": st.sampled_from(["macros", "getitem", "var"]),
+            "n": st.integers(1, 3),
+            "lib": st.sampled_from(["other", "same"]),
+        })
+
+    def nontrivial(self, case):
+        return case["kind"] != "name" or not case["name"].isidentifier()
+
+    def labels(self, case):
+        yield case["kind"]
+
+    def build(self, case):
+        k, n = case["kind"], case["name"]
+        if k == "name":
+            lib = '<b metal:define-macro="%s">M<i metal:define-slot="s">d</i></b>' % n
+            want = "<b>M<u>F</u></b>"
+            fill = '<u metal:fill-slot="s">F</u>'
+        else:
+            rep = ' tal:repeat="i range(%d)"' % case["n"] \
+                if k == "nested_rep" else ""
+            outer_slot = '<i metal:define-slot="x">A</i>' \
+                if k == "nested_same_slot" else ""
+            lib = ('<div metal:define-macro="%s">%s<tal:r%s>'
+                   '<p metal:define-macro="inner">'
+                   '[<i metal:define-slot="x">B</i>]</p></tal:r></div>' % (
+                       n, outer_slot, rep))
+            times = case["n"] if k == "nested_rep" else 1
+            if k == "nested_unfilled":
+                fill = '<u metal:fill-slot="other">F</u>'
+                want = "<div>" + "<p>[<i>B</i>]</p>" * times + "</div>"
+            else:
+                fill = '<u metal:fill-slot="x">F</u>'
+                want = "<div>" + ("<u>F</u>" if outer_slot else "") + \
+                    "<p>[<u>F</u>]</p>" * times + "</div>"
+        if case["lib"] == "same":
+            ref = "macros['%s']" % n
+        elif case["via"] == "getitem":
+            ref = "lib['%s']" % n
+        elif case["via"] == "var":
+            ref = "the_macro"
+        else:
+            ref = "lib.macros['%s']" % n
+        caller = '<x metal:use-macro="%s">%s</x>' % (ref, fill)
+        return lib, caller, want
+
+    def sample(self, case):
+        lib, caller, want = self.build(case)
+        return {"library": lib, "caller": caller, "expected": want}
+
+    def oracle(self, case):
+        from chameleon import PageTemplate
+        lib, caller, want = self.build(case)
+        detail = {"library": lib, "caller": caller, "expected": want}
+        if case["lib"] == "same":
+            # library and caller in one template; the library part is not
+            # rendered in place
+            src = ('<tal:b condition="False">%s</tal:b>%s' % (lib, caller))
+            o = run(PageTemplate, src)
+            if o.ok:
+                o = run(o.value.render)
+        else:
+            o = run(PageTemplate, lib)
+            if o.ok:
+                t = o.value
+                env = {"lib": t}
+                if case["via"] == "var":
+                    o = run(lambda: t.macros[case["name"]])
+                    if o.ok:
+                        env["the_macro"] = o.value
+                if o.ok:
+                    o = run(PageTemplate, caller)
+                if o.ok:
+                    o = run(o.value.render, **env)
+        nested_twice = case["kind"] in ("nested_same_slot",) or (
+            case["kind"] == "nested_rep" and case["n"] >= 2)
+        if not o.ok:
+            return Mismatch("corners:%s raises %s" % (
+                case["kind"], o.exc_name), dict(detail, outcome=o.brief()))
+        if o.value != want:
+            if nested_twice and o.value == self.k16(case):
+                return Mismatch("corners:K16", dict(detail, got=o.value))
+            return Mismatch("corners:%s differs" % case["kind"],
+                            dict(detail, got=o.value))
+        return None
+
+    def k16(self, case):
+        """Deviation: the filler is handed out once per use - to the first
+        slot region that asks for it."""
+        if case["kind"] == "nested_same_slot":
+            return "<div><u>F</u><p>[<i>B</i>]</p></div>"
+        return "<div><p>[<u>F</u>]</p>" + "<p>[<i>B</i>]</p>" * (
+            case["n"] - 1) + "</div>"
+
+    def known(self, case, mismatch):
+        return "K16" if mismatch.bucket == "corners:K16" else None
+
+
 CHECK = Check(
     "C09", "exploration",
     rule=("(macro library, caller) pairs: 1..3 macros with 0..3 slots "
@@ -544,7 +655,7 @@ CHECK = Check(
           "fillers, probes of macro locals/globals after each use; "
           "non-trivial = a use fills some but not all slots, or a repeated "
           "slot name, or an extension; distinct by sha1"),
-    parts=[Inline(), MacroName()],
+    parts=[Inline(), MacroName(), Corners()],
     assumptions=[
         "macro roots, slot elements and filler roots carry no tal:repeat / "
         "replace / omit-tag / on-error themselves and start with text "
